@@ -212,6 +212,21 @@ def run(prop, root, base_chk, budget_mutants=None):
                 pass
     if ov:
         jobs.append((prop, root, "preserving", f"reformat {len(ov)} consulted files (ast round trip)", ov, {"rules": []}))
+    # 4b behaviour-preserving rewrites of every consulted file (armiverif/preserve.py): must stay silent
+    from . import preserve
+    for tname, tf in preserve.ALL.items():
+        ovt = {}
+        for rel in files:
+            p = os.path.join(root, rel)
+            if os.path.exists(p):
+                try:
+                    out = tf(open(p).read())
+                except Exception:
+                    out = None
+                if out:
+                    ovt[rel] = out
+        if ovt:
+            jobs.append((prop, root, "preserving", f"{tname} in {len(ovt)} consulted files", ovt, {"rules": []}))
     # 5 generic mutants
     anchored = _anchored_functions(base_chk)
     rng = random.Random(int(os.environ.get("VERIF_SEED", "0") or 0))
